@@ -109,9 +109,50 @@ def run(tier, seed):
                 if not rs:
                     ctx.violation("replay.sw.returns_self", key, "update() did not return the tracker", None)
                     break
+    # the same windows when the tracker is not alone: several live trackers fed in lock step, and trackers owned by a
+    # MultiValueTracker (one per key, created from one base tracker) - each reports the window of its own values
+    from ixai.utils.tracker import SlidingWindowTracker, MultiValueTracker
+    for k in sorted({k for k, _ in by}):
+        nmax = max(n for kk, n in by if kk == k)
+        streams = {"a": [float(i) for i in range(1, nmax + 1)], "b": [100.0 - 3 * i for i in range(1, nmax + 1)],
+                   "c": [0.5 * i * i for i in range(1, nmax + 1)]}
+        for owner in ("separate objects", "MultiValueTracker"):
+            try:
+                if owner == "separate objects":
+                    trk = {key: SlidingWindowTracker(k) for key in streams}
+                    mv = None
+                else:
+                    mv = MultiValueTracker(SlidingWindowTracker(k))
+                for n in range(1, nmax + 1):
+                    if mv is None:
+                        for key in streams:
+                            trk[key].update(streams[key][n - 1])
+                        got = {key: (float(trk[key].mean), float(trk[key].var), float(trk[key].get())) for key in streams}
+                    else:
+                        mv.update({key: streams[key][n - 1] for key in streams})
+                        vals = mv.get()
+                        got = {key: (float(mv.tracked_value[key].mean), float(mv.tracked_value[key].var), float(vals[key])) for key in streams}
+                    bad = None
+                    for key in streams:
+                        mean, var, _ = _stats([streams[key][i - 1] for i in by[(k, n)]])
+                        gm, gv, gg = got[key]
+                        sc = max(abs(v) for v in streams[key]) ** 2
+                        if not (_close(gm, mean, math.sqrt(sc)) and abs(gv - var) <= 1e-7 * (1 + var) + 1e-15 * sc and _close(gg, mean, math.sqrt(sc))):
+                            bad = (key, (gm, gv, gg), (mean, var))
+                            break
+                    nrep += 1
+                    ctx.count_clause("replay.sw.not_alone")
+                    if bad:
+                        ctx.violation("replay.sw.not_alone", "k=%d owner=%s" % (k, owner), "after %d updates the tracker of stream %r reports "
+                                      "mean/var/get %r, the window of its own values gives %r" % (n, bad[0], bad[1], bad[2]),
+                                      {"k": k, "owner": owner, "n": n})
+                        break
+            except Exception as e:
+                ctx.violation("replay.sw.not_alone", "k=%d owner=%s" % (k, owner), "%s: %s" % (type(e).__name__, str(e)[:200]), {"k": k})
     ctx.traces += len(by)
     ctx.evaluations += nrep
-    ctx.add_stage("spec->code replay of all (k, n) states, 3 value encodings", "replay", comparisons=nrep)
+    ctx.add_stage("spec->code replay of all (k, n) states, 5 value encodings; trackers in company and owned by a MultiValueTracker",
+                  "replay", comparisons=nrep)
     ctx.sample({"direction": "A", "spec_state": states[-1]})
 
     # direction B: random integer streams, TLC carries the specification's ring buffer
